@@ -350,7 +350,7 @@ for _s in [ReadSpec('msg-empty-T', 'message', TOLERANT, MSG_CHAINS, MSG_TARGET),
 
 # ------------------------------------------------------------------------- E1 sweep (thorough)
 
-DEEP_ROOTS = ('msg-empty-T', 'seg-empty-T', 'fld-empty-T', 'seg-built-T', 'seg-empty-S')
+DEEP_ROOTS = ('msg-empty-T', 'seg-empty-T', 'fld-empty-T')
 
 
 def sweep_unit(unit, tier):
